@@ -18,13 +18,20 @@ MIPS_OBS = (set(MS.REG) - {"$zero"}) | {"$hi", "$lo"}     # the lifter reads $ze
 def mips_items(tier, rnd):
     items = []
     T = tier == "thorough"
-    plain = EM.plain_words(rnd, T)
+    plain = EM.plain_words(rnd, T) + EM.random_plain(rnd, 60 if not T else 600)
     for arch, little in (("mips", False), ("mipsel", True)):
         ws = plain if (T or arch == "mips") else [p for p in plain if p[0].split()[0] in ("lw", "sw", "lh", "sh", "lb", "lwl", "lwr", "swl", "swr", "ll", "sc", "lhu", "lbu", "sb", "addiu", "addu")]
         for lab, w in ws:
             b = w.to_bytes(4, "little" if little else "big")
             items.append({"arch": arch, "bytes": b.hex(), "address": ADDR, "words": [w], "label": f"{arch}: {lab}", "mn": lab.split()[0], "kind": "plain"})
         slots = EM.slot_words()
+        if arch == "mips" or T:
+            rslots = EM.random_slots(rnd, 8)
+            for lab, w in EM.random_branches(rnd, 30 if not T else 300):
+                slab, sw = rnd.choice(rslots + slots)
+                b = w.to_bytes(4, "little" if little else "big") + sw.to_bytes(4, "little" if little else "big")
+                items.append({"arch": arch, "bytes": b.hex(), "address": ADDR, "words": [w, sw], "label": f"{arch}: {lab} ; slot: {slab}", "mn": lab.split()[0], "kind": "branch",
+                              "slot": slab.split()[0] if slab == "nop" else "interfering", "skip_shape": True})
         for lab, w in EM.branch_words(ADDR):
             use = slots if T else [slots[0]] + rnd.sample(slots[1:], 2)
             if arch == "mipsel" and not T:
@@ -36,9 +43,9 @@ def mips_items(tier, rnd):
     return items
 
 
-def ppc_items(tier):
+def ppc_items(tier, rnd=None):
     items = []
-    for lab, w in PS.words(tier == "thorough"):
+    for lab, w in PS.words(tier == "thorough") + (PS.random_words(rnd, 25 if tier != "thorough" else 300) if rnd is not None else []):
         items.append({"arch": "ppc", "bytes": w.to_bytes(4, "big").hex(), "address": ADDR, "words": [w], "label": f"ppc: {lab}", "mn": lab.split()[0], "kind": "plain"})
     return items
 
@@ -70,7 +77,7 @@ def work(item):
     arch = item["arch"]
     endian = "little" if arch == "mipsel" else "big"
     item = dict(item); item["nowrap32"] = True
-    r = liftcheck.analyse(arch, endian, item, specfn, k=(70 if item['mn'] in ('clz', 'clo') else 8), timeout_ms=int(os.environ.get("VERIF_QUERY_MS", "12000" if common.tier() == "quick" else "60000")), observables=observable(arch),
+    r = liftcheck.analyse(arch, endian, item, specfn, k=(70 if item['mn'] in ('clz', 'clo') else 8), timeout_ms=int(os.environ.get("VERIF_QUERY_MS", "12000" if common.tier() == "quick" else "60000")), observables=observable(arch), k_is_bound=True,
                           flag_names=tuple(f"cr{i}-{f}" for i in range(8) for f in ("lt", "gt", "eq", "so")) + ("carry",))
     r["mn"] = item["mn"]
     return r
@@ -129,7 +136,7 @@ def main():
     drv.build()
     rep = common.Report("C02", "translation_validation")
     rnd = random.Random(rep.seed * 31 + 5)
-    items = mips_items(rep.tier, rnd) + ppc_items(rep.tier)
+    items = mips_items(rep.tier, rnd) + ppc_items(rep.tier, rnd)
     results = common.pmap(work, items, chunksize=4)
     counts = {}
     for it, r in zip(items, results):
